@@ -40,7 +40,7 @@ def qs_worker(prop, seed, widx, nworkers, plan, scratch, allow_restart=False, ru
     st = {"runs": 0, "nontrivial_runs": 0, "events": 0, "quanta": 0, "multi_event_quanta": 0,
           "sim_seconds": 0.0, "faults": {}, "probes": {}, "foreign": {}, "scripts": set(),
           "states": set(), "interleavings": set(), "determinism_rechecks": 0, "modes": {},
-          "max_alternatives": 0, "max_steps": 0, "hub_errors": {}}
+          "max_alternatives": 0, "max_steps": 0, "hub_errors": {}, "state_growth": {}}
     samples = []
     known_hits = []
     violation = None
@@ -67,6 +67,8 @@ def qs_worker(prop, seed, widx, nworkers, plan, scratch, allow_restart=False, ru
             st["states"] |= {h.hex() for h in res["states"]}
         if len(st["interleavings"]) < Stats.SET_CAP:
             st["interleavings"] |= res["interleavings"]
+        if n % 500 == 0 and n <= 30000:
+            st["state_growth"][str(n)] = len(st["states"])
         if is_nontrivial(res):
             st["nontrivial_runs"] += 1
             if len(st["scripts"]) < Stats.SET_CAP:
@@ -148,6 +150,8 @@ def qs_evidence(prop, level, stats, samples, plan, tier, seed, wall, nviol, know
         "probes_at_zero": [p for p in extra.get("expected_probes", []) if not probes.get(p)] if extra else [],
         "distinct_abstract_states": len(stats.get("states", ())),
         "distinct_interleavings": len(stats.get("interleavings", ())),
+        "abstract_states_after_n_runs_per_worker_summed_over_workers": dict(
+            sorted(stats.get("state_growth", {}).items(), key=lambda kv: int(kv[0]))[:60]),
         "modes": stats.get("modes", {}),
         "determinism_rechecks": stats.get("determinism_rechecks", 0),
         "foreign_violations_ignored": stats.get("foreign", {}),
